@@ -51,9 +51,9 @@ static void op_b64(const vf::Op& o)
 	VF_CHECK((int)strlen(*enc) == enc.length(), "encodeBase64 result length/terminator");
 	String enc2 = encodeBase64((const byte*)data.data(), (int)data.size());
 	VF_CHECK(S(enc2) == want, "encodeBase64(ptr,n)");
-	if (data.find('\0') == std::string::npos) {
-		String enc3 = encodeBase64(String(data.c_str()));
-		VF_CHECK(S(enc3) == want, "encodeBase64(String)");
+	{
+		String enc3 = encodeBase64(String(data.data(), (int)data.size()));
+		VF_CHECK(S(enc3) == want, "encodeBase64(String of ", data.size(), " bytes)");
 	}
 	ByteArray dec = decodeBase64(enc);
 	VF_CHECK(S(dec) == data, "decodeBase64(encodeBase64(x)) != x, len=", data.size(), " got len ", dec.length());
@@ -149,6 +149,11 @@ static void op_sha1(const vf::Op& o)
 	VF_CHECK(std::string((const char*)(const byte*)h1, 20) == want, "SHA1::hash(ptr,len) len=", m.size(), " got ", ref::hex(std::string((const char*)(const byte*)h1, 20)), " want ", ref::hex(want));
 	SHA1::Hash h2 = SHA1::hash(BA(m));
 	VF_CHECK(std::string((const char*)(const byte*)h2, 20) == want, "SHA1::hash(ByteArray) len=", m.size());
+	{
+		// a String may hold any byte (built with String(ptr, n)): its overload must hash all of them
+		SHA1::Hash h5 = SHA1::hash(String(m.data(), (int)m.size()));
+		VF_CHECK(std::string((const char*)(const byte*)h5, 20) == want, "SHA1::hash(String built from ", m.size(), " bytes", m.find('\0') != std::string::npos ? " incl. a NUL" : "", ")");
+	}
 	if (m.find('\0') == std::string::npos) {
 		ExactC c(m);
 		SHA1::Hash h3 = SHA1::hash(c.p);
